@@ -31,14 +31,17 @@ CHECKS = {
         "function body was merged into it), after whose repair the hypothesis 'nothing opens right after the body' was deleted from every "
         "theorem.  Membership in the grammars is DECIDED: executable recognisers (Scope/GrammarParse.v, PyGrammarParse.v) are proved sound "
         "(C01_recognised_programs, C01_recognised_python_programs) and run inside Coq on the generated programs; about half are members, "
-        "for which no descriptor-side hypothesis is left.  NOT proved: what the grammars leave out (callbacks inside call arguments, brace "
-        "groups inside the parameter lists of the brace languages, Python backslash continuations: hypothesis form and generator only) "
+        "for which no descriptor-side hypothesis is left.  The brace grammar meanwhile also covers TypeScript return types with parenthesis "
+        "groups, flat brace groups in JavaScript / TypeScript parameter lists and callback statements (each extension was corrected or "
+        "confirmed by its proof attempt; counter-example streams in Scope/GrammarAllProofsCex.v).  NOT proved: what the grammars leave "
+        "out (anonymous classes / object initialisers after `new`, nested brace groups in parameter lists, Python backslash "
+        "continuations: hypothesis form and generator only) "
         "and the text->token step (lexers are oracles).  4 200 generated programs per quick run (nesting in any position, multi-line "
         "headers, both brace styles, brace groups and calls in parameters, async, long throws / return types, strings with "
         "delimiters, marker-like comments, bodies around 15/30/60) are judged against expectations computed from the rendering, "
         "and the Coq model runs on the same token streams.",
    note="Partial: formal grammars with unconditional theorems and sound recognisers exist for all seven languages, but they leave out "
-        "callbacks / anonymous classes inside call arguments, brace groups inside parameter lists of the brace languages and Python backslash "
+        "anonymous classes / object initialisers after `new`, nested brace groups inside parameter lists and Python backslash "
         "continuations (those are covered by the decidable-hypothesis theorems, validated per generated program); lexers are oracles.  Trusted: Coq kernel; scope model (tie H), captured "
         "patterns (tie K); generator harness/progen.py and its piece-ownership expectation.",
    technique="Rocq end-to-end theorem (header recognition via the concrete DFAs, Dyck matching, pairing invariant, fold, counting; Python suites) under decidable lexical hypotheses checked in Coq per generated program; formal grammars with unconditional theorems and sound recognisers run in Coq + typed program generator with computed expectations",
